@@ -29,6 +29,8 @@ CHECKS = {
          "Hostile connections send generated sequences of OPTIONS/STARTUP/REGISTER/requests with every version byte (0-127, both directions), valid and invalid opcodes and STARTUP option maps under every configured maximum version, each answered frame by frame: exactly one SUPPORTED/READY/ERROR, a protocol error naming the version for known versions outside [v3, max] with the connection still usable, error or close for unknown bytes, ERROR only for unsupported compression; a well-behaved second connection keeps decoding correct, uncompressed answers and the backends see nothing but its requests.", "§7 C13"),
  "C03": ("deterministic simulation: protocol-grammar request/response generators (all option flags, versions v3/v4/v5/DSEv1/DSEv2, none/lz4/snappy, bodies up to 1 MiB) under scheduler-chosen fragmentation, concurrent clients and retries; byte-equality oracle modulo the stream id on every attempt",
          "Requests produced by the reference codec over the protocol's option space and responses of every kind and error code (with tracing, warning and custom-payload flags, compressed or not) flow through the real proxy under fragmentation, several clients and scripted retries; the bytes every backend attempt receives and the bytes the client receives must equal what was sent except for header bytes 2-3, and no well-formed frame may cost the client its connection.", "§7 C03"),
+ "C12": ("deterministic simulation: all subsets of consistency levels as the unsupported list x override level x generated QUERY/EXECUTE/BATCH over versions and compressions, with scripted retries; field-by-field oracle through the reference codec at the backend",
+         "Each run draws an unsupported-consistency list (any of the 2^11 subsets, sometimes none) and an override level, prepares SELECT and non-SELECT statements through the proxy and sends generated requests (all option flags, header flags, versions, compression), some of them retried; every attempt a backend receives is decoded with the reference codec and must equal the client's request with only the consistency replaced when (non-SELECT and level in list), and be byte-identical otherwise.", "§7 C12"),
 }
 
 NOT_APPLICABLE = {
